@@ -143,6 +143,11 @@ pub struct Cfg {
     pub spoof_pm: u64,
     /// only datagrams of at most this many bytes are used for spoofing (0 = any)
     pub spoof_max_len: usize,
+    /// number of distinct spoofed source addresses (10.77.77.1 .. 10.77.77.N, rotating; 0/1 = one address)
+    pub spoof_addrs: u64,
+    /// the spoofed copy keeps only the first 21 bytes (flags + destination connection id) of the genuine datagram, the
+    /// rest is random: it is routed to the connection but cannot be authenticated
+    pub spoof_garbage: bool,
     /// application close by the SERVER at this virtual time (0 = never)
     pub sclose_at_ms: u64,
     /// how many leading bytes of each datagram are recorded in `wire` lines
@@ -214,6 +219,8 @@ impl Default for Cfg {
             inject_burst: 1,
             spoof_pm: 0,
             spoof_max_len: 0,
+            spoof_addrs: 0,
+            spoof_garbage: false,
             sclose_at_ms: 0,
             wire_head: 48,
             sreset: false,
@@ -346,6 +353,8 @@ impl Cfg {
                 "inject_burst" => c.inject_burst = n()?,
                 "spoof_pm" => c.spoof_pm = n()?,
                 "spoof_max_len" => c.spoof_max_len = n()? as usize,
+                "spoof_addrs" => c.spoof_addrs = n()?,
+                "spoof_garbage" => c.spoof_garbage = n()? != 0,
                 "sclose_at_ms" => c.sclose_at_ms = n()?,
                 "wire_head" => c.wire_head = n()? as usize,
                 "sreset" => c.sreset = n()? != 0,
